@@ -36,6 +36,7 @@ class Ctx:
         self.distinct = set()
         self.evaluations = 0
         self.cases_by_engine = {}
+        self.case_lookup = {}
         self.exhaustive = False
 
     # ------------------------------------------------------------------ build
@@ -216,7 +217,9 @@ class Ctx:
             rp = os.path.join(ROOT, "evidence", "replay", f"{prop}-{hashlib.sha1(sig.encode()).hexdigest()[:10]}.json")
             case = None
             cf = self.cases_by_engine.get(v["engine"])
-            if cf:
+            if v["engine"] in self.case_lookup:
+                case = self.case_lookup[v["engine"]](v["id"])
+            elif cf:
                 for c in cf[1]:
                     if c.get("id") == v["id"]:
                         case = c
